@@ -66,6 +66,20 @@ def real_roots(p, lo, hi, eps=F(1, 10 ** 12)):
         return None
     if len(p) == 1:
         return []
+    # Sturm's theorem wants a square-free polynomial and end points that are not roots
+    g = sturm_chain(p)[-1]
+    if len(g) > 1:
+        p, _ = pdivmod(p, g)
+        p = trim(p)
+    lo, hi = F(lo), F(hi)
+    d = F(1, 1024)
+    while peval(p, lo) == 0:
+        lo -= d
+        d /= 3
+    d = F(1, 1024)
+    while peval(p, hi) == 0:
+        hi += d
+        d /= 3
     ch = sturm_chain(p)
     out = []
 
